@@ -14,20 +14,25 @@ int main(int argc,char **argv)
 	std::vector<unsigned char> msg=w.bufs["block"];
 	// extend deterministically to 150 bytes so every padding residue and a second block are exercised
 	for(size_t i=msg.size();i<150;i++) msg.push_back((unsigned char)(i*131+7));
+	std::vector<unsigned char> store(msg.size()+8);
+	for(size_t mis=0;mis<4;mis++)
 	for(size_t len=0;len<=msg.size();len++) {
 		unsigned char ref[20],got[20];
+		// the message at every alignment of the input pointer (md5_process has an aligned and an unaligned path)
+		unsigned char *base=&store[0]; while(((size_t)base)&3) base++; base+=mis;
+		memcpy(base,&msg[0],msg.size());
 		if(what=="md5") {
-			MD5(&msg[0],len,ref);
+			MD5(base,len,ref);
 			cppcms::impl::md5_state_t st; cppcms::impl::md5_init(&st);
 			// feed in two pieces to exercise chunking
-			cppcms::impl::md5_append(&st,&msg[0],(int)(len/3));
-			cppcms::impl::md5_append(&st,&msg[0]+len/3,(int)(len-len/3));
+			cppcms::impl::md5_append(&st,base,(int)(len/3));
+			cppcms::impl::md5_append(&st,base+len/3,(int)(len-len/3));
 			cppcms::impl::md5_finish(&st,got);
 			if(memcmp(ref,got,16)!=0) return replay_fail("bundled MD5 differs from OpenSSL MD5");
 		}
 		else if(what=="sha1") {
-			SHA1(&msg[0],len,ref);
-			cppcms::impl::sha1 s; s.process_bytes(&msg[0],len/3); s.process_bytes(&msg[0]+len/3,len-len/3);
+			SHA1(base,len,ref);
+			cppcms::impl::sha1 s; s.process_bytes(base,len/3); s.process_bytes(base+len/3,len-len/3);
 			unsigned int d[5]; s.get_digest(d);
 			for(int i=0;i<5;i++) { got[4*i]=d[i]>>24; got[4*i+1]=d[i]>>16; got[4*i+2]=d[i]>>8; got[4*i+3]=d[i]; }
 			if(memcmp(ref,got,20)!=0) return replay_fail("bundled SHA-1 differs from OpenSSL SHA-1");
